@@ -51,7 +51,17 @@ class C13:
         def case(draw):
             v = draw(st.sampled_from(TARGETS))
             host = draw(st.sampled_from(["3.12", v])) if v in HOSTS else "3.12"
-            kind = draw(st.sampled_from(["exec", "exec", "consts"]))
+            kind = draw(st.sampled_from(["exec", "exec", "consts", "fields"]))
+            if kind == "fields" and v in ("3.11", "3.12", "3.13"):
+                kind = "consts"         # (3.11+ has no co_nlocals field to disagree with the names)
+            if kind == "fields":
+                # a hand-built code object: header integers that no compiler derives from one another
+                nvars = draw(st.integers(0, 6))
+                return {"v": v, "host": host, "k": "fields", "nvars": nvars, "nlocals": draw(st.integers(0, nvars)),
+                        "argcount": draw(st.integers(0, nvars)), "stacksize": draw(st.sampled_from([0, 1, 7, 300, 70000])),
+                        "flags": draw(st.sampled_from([0, 0x40, 0x43, 0x20, 0x2000, 0x10000])),
+                        "firstlineno": draw(st.sampled_from([0, 1, 255, 70000])),
+                        "ts": draw(st.sampled_from([1, 1234567])), "size": draw(st.sampled_from([0, 4321]))}
             if kind == "exec":
                 src = draw(gp.programs(v, exec_safe=True, size=draw(st.integers(2, 4))))
             else:
@@ -64,13 +74,111 @@ class C13:
                     "size": draw(st.sampled_from([0, 4321, 2 ** 32 - 1]))}
         return case()
 
-    def judge(self, case, ctx):
+    def fixed_cases(self, ctx):
+        from vf.props.c01 import COUSIN
+        for rel in pd.corpus_files():
+            d = rel.split("/")[0].replace("bytecode_", "")
+            if d in COUSIN and "pypy" not in d:
+                yield {"k": "corpus", "path": rel}
+
+    def judge_corpus(self, case, ctx):
+        """files of versions nobody can run (2.3-2.6, 3.0-3.5) and the other sample files: rewritten, then read by the
+        interpreter with the identical code layout, and scanned for type codes the target's marshal does not know"""
+        from vf.props.c01 import COUSIN
+        from vf.ref import refscan
         res = Result()
-        v, host = case.get("v"), case.get("host")
-        if v not in TARGETS or host not in HOSTS or not isinstance(case.get("src"), str):
+        rel = case.get("path", "")
+        d = rel.split("/")[0].replace("bytecode_", "")
+        path = os.path.join(pd.CORPUS_DIR, rel)
+        if d not in COUSIN or "pypy" in d or not os.path.isfile(path):
             res.reject = "malformed-case"
             return res
-        ref = ctx.pool.ref(v).call("compile", src=case["src"], dis=False, filename="prog.py")
+        if os.path.getsize(path) > (30000 if ctx.tier == "quick" else 10 ** 6):
+            res.reject = "corpus-file-too-big-for-tier"
+            return res
+        vt = pd.vt(d)
+        hl = 8 if vt < (3, 3) else (12 if vt < (3, 7) else 16)
+        orig = open(path, "rb").read()
+        cousin = COUSIN[d]
+        sig = "C13|corpus|%s" % d
+        res.classes = ["corpus:" + d, "reference:" + cousin]
+        res.sample = {"corpus_file": rel, "reference_interpreter": cousin}
+        res.key = [rel]
+        ref = ctx.pool.ref(cousin).call_raw("loads", payload=rw.hx(orig[hl:]))
+        if not ref["ok"] or "reject" in ref["r"]:
+            res.reject = "cousin-interpreter-cannot-load:%s" % d
+            return res
+        ref = ref["r"]
+        r = ctx.pool.host("3.12").call_raw("x_rewrite", data=rw.hx(orig), ts=1234567, size=4321)
+        if not r["ok"]:
+            res.reject = "xdis-cannot-load(C01's subject)"
+            return res
+        r = r["r"]
+        if "refused" in r:
+            res.classes.append("writer-refused:" + r["refused"].split(":")[0])
+            return res
+        new = rw.unhx(r["data"])
+        res.nontrivial = cn.count_codes(ref["tree"]) >= 2
+        exp_header = orig[:4] + (struct.pack("<I", 0) if vt >= (3, 7) else b"") + struct.pack("<I", 1234567) + (
+            struct.pack("<I", 4321) if vt >= (3, 3) else b"")
+        if new[:hl] != exp_header:
+            res.fail(sig + "|header", "%s: header written %s, expected %s" % (rel, rw.hx(new[:hl]), rw.hx(exp_header)))
+        try:
+            bad = refscan.not_for_version(new[hl:], vt)
+        except refscan.ScanError as e:
+            res.fail(sig + "|payload-not-a-marshal-stream", "%s: rewritten payload cannot be walked: %s" % (rel, e))
+            return res
+        if bad:
+            res.fail(sig + "|type-codes-unknown-to-target|%s" % "".join(sorted(bad)), "%s: rewritten payload uses marshal type codes %s, which "
+                     "Python %s cannot read" % (rel, sorted(bad), d))
+        back = ctx.pool.ref(cousin).call_raw("loads", payload=rw.hx(new[hl:]))
+        if not back["ok"] or "reject" in back["r"]:
+            res.fail(sig + "|cousin-rejects", "%s: CPython %s (same code layout) cannot load the rewritten payload: %s" % (
+                rel, cousin, back["r"].get("reject") if back["ok"] else "died"))
+            return res
+        dd = cn.diff(ref["tree"], back["r"]["tree"])
+        if dd and _nan_only(ref["tree"], back["r"]["tree"]):
+            dd = None
+        if dd:
+            res.fail(sig + "|tree|%s|exp=%s|got=%s" % (cn.field_of(dd[0]) or "const", pd.kshort(dd[1]), pd.kshort(dd[2])),
+                     "%s: rewritten file loads differently in CPython %s at %s: original %s, rewritten %s" % (rel, cousin, dd[0], dd[1], dd[2]))
+        return res
+
+    def judge(self, case, ctx):
+        if case.get("k") == "corpus":
+            return self.judge_corpus(case, ctx)
+        res = Result()
+        v, host = case.get("v"), case.get("host")
+        fields = case.get("k") == "fields"
+        if v not in TARGETS or host not in HOSTS or not (fields or isinstance(case.get("src"), str)):
+            res.reject = "malformed-case"
+            return res
+        if fields:
+            from vf.ref import refmarshal as rm
+            try:
+                nvars = int(case["nvars"])
+                extra = {"co_nlocals": ["i", str(int(case["nlocals"]))], "co_argcount": ["i", str(int(case["argcount"]))],
+                         "co_stacksize": ["i", str(int(case["stacksize"]))], "co_flags": ["i", str(int(case["flags"]))],
+                         "co_firstlineno": ["i", str(int(case["firstlineno"]))]}
+                if not (0 <= nvars <= 50) or any(not (0 <= int(x_[1]) < 2 ** 31) for x_ in extra.values()):
+                    raise ValueError
+            except Exception:
+                res.reject = "malformed-case"
+                return res
+            tree = rm.template_code_tree(v, ["T", [["N"], ["i", "7"]]], varnames=["v%d" % i for i in range(nvars)], extra=extra)
+            if pd.vt(v) >= (3, 11):
+                res.reject = "fields-case-needs-co_nlocals(<3.11)"
+                return res
+            payload, _ = rm.encode(tree, v)
+            hdr = ctx.pool.ref(v).call("compile", src="pass", dis=False, filename="prog.py")["header"]
+            ld = ctx.pool.ref(v).call_raw("loads", payload=rw.hx(payload))
+            if not ld["ok"] or "reject" in ld["r"]:
+                res.reject = "cpython-rejects-these-fields"
+                return res
+            ref = {"header": hdr, "payload": rw.hx(payload), "tree": ld["r"]["tree"]}
+            case = dict(case, src="<hand-built code object: %s>" % sorted(extra.items()))
+        else:
+            ref = ctx.pool.ref(v).call("compile", src=case["src"], dis=False, filename="prog.py")
         if "reject" in ref:
             res.reject = "compiler-rejects:" + ref["reject"].split(":")[0]
             return res
@@ -124,13 +232,15 @@ class C13:
         if e2 and not e1:
             res.fail(sig + "|xdis-reload-raised|%s" % e2[0], "xdis cannot re-load its own output: %s: %s" % (e2[0], e2[1]))
         elif x1 and x2:
-            d2 = cn.diff(x1["tree"], x2["tree"])
+            # (CPython's code constructor sets CO_NOFREE itself up to 3.10: a native-path rewrite stores the bit)
+            from vf.props.c01 import _mask_nofree
+            d2 = cn.diff(_mask_nofree(x1["tree"]), _mask_nofree(x2["tree"]))
             if d2 and _nan_only(x1["tree"], x2["tree"]):
                 res.fail("C13|%s|nan-sign-lost-by-text-float" % v, "NaN constant changes sign/payload on re-load: %s -> %s at %s" % (d2[1], d2[2], d2[0]))
             elif d2:
                 res.fail(sig + "|xdis-reload-differs|%s" % (cn.field_of(d2[0]) or "const"), "xdis reads its output differently at %s: %s vs %s" % d2)
         # execution
-        if not d:
+        if not d and not fields:
             exe = interpreters()[v]
             p1 = os.path.join(ctx.scratch, "orig.pyc")
             p2 = os.path.join(ctx.scratch, "new.pyc")
